@@ -83,6 +83,7 @@ class P:
         if t.startswith("g:"):
             _, m, n = t.split(":"); return Global(gostr(bytes.fromhex(m)), gostr(bytes.fromhex(n)))
         if t == "l[": return self.until("]")
+        if t == "tnil": return ()
         if t == "t(": return tuple(self.until(")"))
         if t in ("m{", "d{"):
             l = self.until("}")
